@@ -7,7 +7,7 @@ from ..oracle import DIR_SUFFIX, H, canonical_dir_bytes, list_store, parse_dir_b
 
 RULE = (
     "case = (store class local/base/remote, store algorithm, hand-written store content: files, directory objects incl. shared and "
-    "absent children, strays; used set mixing present ids, absent ids, ids under another algorithm name, directory ids; "
+    "absent children, strays, legacy `.unpacked` directories next to directory objects (a dry run must leave the whole store directory as it was); used set mixing present ids, absent ids, ids under another algorithm name, directory ids; "
     "shallow/expanding; dry/real; same or separate cache_odb; read-only flag; the same collection repeated in the same process - real run after a dry run, or again after the removed objects were put back); non-trivial = at least one object must go and at "
     "least one must stay; distinct = hash of the whole configuration"
 )
@@ -18,7 +18,7 @@ ASSUMPTIONS = [
     "stray files that do not have the <2>/<rest> layout are outside the property",
 ]
 MONITORS = "independent before/after os.walk listing of the store compared with a set-difference model; return value; byte snapshot of survivors"
-REQUIRED_COUNTERS = ["repeat_calls_in_one_process", "stale_listing_loaded_before_gc", "path_spelling/trailing-slash", "path_spelling/dotdot", "nfc_nfd_sibling_listings", "used_as/generator", "used_as/iterator", "gc_calls", "expanding_calls_with_used_dir", "dry_calls", "readonly_calls", "real_removals", "foreign_algo_ids_in_used"]
+REQUIRED_COUNTERS = ["unpacked_dirs_planted", "repeat_calls_in_one_process", "stale_listing_loaded_before_gc", "path_spelling/trailing-slash", "path_spelling/dotdot", "nfc_nfd_sibling_listings", "used_as/generator", "used_as/iterator", "gc_calls", "expanding_calls_with_used_dir", "dry_calls", "readonly_calls", "real_removals", "foreign_algo_ids_in_used"]
 
 
 def _put(root, oid, data, mode):
@@ -99,6 +99,17 @@ def run_shard(ctx):
                 os.makedirs(root, exist_ok=True)
                 with open(os.path.join(root, "stray.txt"), "wb") as f:
                     f.write(b"stray")
+            # legacy "<dir object>.unpacked" directories next to some directory objects (older versions kept an unpacked copy there)
+            unpacked = set()
+            if cls == "local":
+                for o in sorted(dirs_in_store):
+                    if rng.random() < 0.25:
+                        up = os.path.join(root, o[:2], o[2:] + ".unpacked")
+                        os.makedirs(up, exist_ok=True)
+                        with open(os.path.join(up, "f"), "wb") as f:
+                            f.write(b"unpacked copy")
+                        unpacked.add(o)
+                        res.count("unpacked_dirs_planted")
             os.makedirs(root, exist_ok=True)
             os.makedirs(croot, exist_ok=True)
 
@@ -153,6 +164,14 @@ def run_shard(ctx):
                             f.write(genuine)
                         os.chmod(pth, 0o444)
                         res.count("stale_listing_loaded_before_gc")
+            def everything(r_):
+                out_ = set()
+                for dp_, dn_, fn_ in os.walk(r_):
+                    for x_ in dn_ + fn_:
+                        out_.add(os.path.relpath(os.path.join(dp_, x_), r_))
+                return out_
+
+            all_before = everything(root)
             before = store_snapshot(root)
             cache_before = store_snapshot(croot) if separate_cache else None
             present = set(before)
@@ -233,6 +252,10 @@ def run_shard(ctx):
                 if dry:
                     if after != before:
                         res.violation("dry-run-removed" + tag, "dry run changed the store", case=case, detail=cfg)
+                    elif everything(root) != all_before:
+                        gone_ = sorted(all_before - everything(root))
+                        res.violation("dry-run-removed/unpacked-directory" if any(".unpacked" in g_ for g_ in gone_) else "dry-run-removed/other-path",
+                                      f"dry run removed {gone_[:2]} from the store directory", case=case, detail=cfg)
                     return
                 gone = present - set(after)
                 used_lost = gone & keep
@@ -248,6 +271,9 @@ def run_shard(ctx):
                         res.violation("survivor-bytes-changed" + tag, "gc altered a surviving object", case=case, detail=cfg)
                         break
                 res.count("real_removals", len(gone))
+                for o_ in unpacked:
+                    if o_ in keep and o_ in after and not os.path.isdir(os.path.join(root, o_[:2], o_[2:] + ".unpacked")):
+                        res.violation("unpacked-copy-of-used-directory-removed" + tag, f"the .unpacked directory of used {o_} was removed", case=case, detail=cfg)
 
             judge(n, before, after, dry)
             if unloadable:
